@@ -118,6 +118,22 @@ def main():
                 if mt != it:
                     disagreements.append({"what": "TLS13 0x%04X fragmented flight" % code, "model": mt[:120], "impl": it[:120], "capture": s.capture.hex(), "keylog": s.keylog})
             ck.case(("tls13-fragmented", code, s.capture[:64]))
+    # TLS <= 1.2: the server's plaintext flight fragmented across records, continuation records starting with bytes that read as hello types
+    for rep in range(8 if ck.tier == "quick" else 120):
+        code = rng.choice([0x002F, 0xC02F, 0xC030, 0x009C, 0xCCA8, 0x003C, 0x000A, 0x0005])
+        ver = rng.choice([v for v in tls_ref.valid_versions(code, iana_ref.denote(table[code])) if v != "TLS13"])
+        s = tlsgen.single(rng, table, code, ver, hist, shape="full", hs12_cuts=[rng.randrange(1, 720) for _ in range([1, 2, 4, 9][rep % 4])], nrec=rng.choice([2, 5]), reclen=rng.choice([1, 40, 300]))
+        st, out, it = tlsgen.run_impl(impl, s.capture, s.keylog)
+        why = ("run ended with " + st) if st != "ok" else judge(s, out)
+        if why:
+            fails.append({"what": "%s 0x%04X %s, server flight fragmented across records: %s" % (ver, code, table[code], why), "capture": s.capture.hex(), "keylog": s.keylog,
+                          "client_plaintext": s.conn.plaintext(False).hex(), "server_plaintext": s.conn.plaintext(True).hex(), "scenario": describe(s)})
+        if m and len(s.packets) <= 400:
+            hist["model_runs"] += 1
+            mt = tlsgen.canon_model(tlsgen.run_model(m, impl, s.capture, s.keylog, s.opts))
+            if mt != it:
+                disagreements.append({"what": "%s 0x%04X fragmented plaintext flight" % (ver, code), "model": mt[:120], "impl": it[:120], "capture": s.capture.hex(), "keylog": s.keylog})
+        ck.case(("tls12-fragmented", code, s.capture[:64]))
     if m:
         ck.cov["oracle_queries"] = m.queries
         ck.cov["model_runs_skipped"] = m.skipped
@@ -127,7 +143,7 @@ def main():
     ck.cov["rule"] = ("one connection per capture from the reference sender: version x table suite valid for it (quick: one per protection class and MAC, rotating "
                       "with the seed, + 10 random; thorough: all, 3 histories each) x handshake shape x session-id length x extensions x encrypt-then-MAC x "
                       "TLS 1.3 handshake secrets in/out of the log x record padding x 0..20 application records of lengths 0..16384 in random direction order x "
-                      "segmentation schedule x IPv4/IPv6; plus, for every TLS 1.3 suite, server flights fragmented across records at arbitrary bytes; non-trivial = every case "
+                      "segmentation schedule x IPv4/IPv6; plus, for every TLS 1.3 suite, server flights fragmented across records at arbitrary bytes, and TLS <= 1.2 plaintext flights fragmented behind the ServerHello with continuation records that start with 0x01/0x02; non-trivial = every case "
                       "(all carry a handshake)")
     ck.cov["dimension_histogram"] = dict(sorted(hist.items()))
     if disagreements:
